@@ -87,6 +87,8 @@ pub enum RTy {
     /// value of a flattened struct stored in a collection (`Vec<Move>` in a bit-manipulating function): the tuple of its
     /// fields in declaration order (struct name, field types)
     Packed(String, Vec<RTy>),
+    /// `std::ops::Range<T>` of integers (`start..end`): the pair `(start, end)`
+    Range(Box<RTy>),
 }
 
 impl RTy {
@@ -114,6 +116,7 @@ impl RTy {
             RTy::Tuple(ts) => if ts.is_empty() { "Unit".into() } else { format!("({})", ts.iter().map(|t| t.lean_atom()).collect::<Vec<_>>().join(" × ")) },
             RTy::Table(n) => crate::targets::table_lean_type(n),
             RTy::Packed(_, ts) => if ts.len() == 1 { ts[0].lean() } else { format!("({})", ts.iter().map(|t| t.lean_atom()).collect::<Vec<_>>().join(" × ")) },
+            RTy::Range(t) => format!("({} × {})", t.lean_atom(), t.lean_atom()),
         }
     }
     pub fn lean_atom(&self) -> String {
@@ -142,13 +145,14 @@ impl RTy {
             RTy::U64 => "u64".into(),
             RTy::Tuple(ts) => format!("({})", ts.iter().map(|t| t.rust()).collect::<Vec<_>>().join(", ")),
             RTy::Table(n) | RTy::Packed(n, _) => n.clone(),
+            RTy::Range(t) => format!("Range<{}>", t.rust()),
         }
     }
     /// equal up to `Infer`
     pub fn compat(&self, other: &RTy) -> bool {
         match (self, other) {
             (RTy::Infer, _) | (_, RTy::Infer) => true,
-            (RTy::Opt(a), RTy::Opt(b)) | (RTy::VecFn(a), RTy::VecFn(b)) | (RTy::VecList(a), RTy::VecList(b)) | (RTy::Iter(a), RTy::Iter(b)) | (RTy::VecDeque(a), RTy::VecDeque(b)) => a.compat(b),
+            (RTy::Opt(a), RTy::Opt(b)) | (RTy::VecFn(a), RTy::VecFn(b)) | (RTy::VecList(a), RTy::VecList(b)) | (RTy::Iter(a), RTy::Iter(b)) | (RTy::VecDeque(a), RTy::VecDeque(b)) | (RTy::Range(a), RTy::Range(b)) => a.compat(b),
             (RTy::HashMap(a, b), RTy::HashMap(c, d)) | (RTy::Res(a, b), RTy::Res(c, d)) => a.compat(c) && b.compat(d),
             (RTy::Tuple(a), RTy::Tuple(b)) => a.len() == b.len() && a.iter().zip(b.iter()).all(|(x, y)| x.compat(y)),
             (a, b) => a == b,
